@@ -46,6 +46,7 @@ type kSvc struct {
 	headless bool
 	ports    []int32
 	exists   bool
+	hidden   bool // annotated networking.istio.io/exportTo: "~" (exported to no namespace)
 }
 
 // kCluster builds the causal history.
@@ -95,6 +96,9 @@ func (k *kCluster) svcObj(s *kSvc) *corev1.Service {
 	}
 	if s.headless {
 		o.Spec.ClusterIP = corev1.ClusterIPNone
+	}
+	if s.hidden {
+		o.Annotations = map[string]string{"networking.istio.io/exportTo": "~"}
 	}
 	for _, p := range s.ports {
 		o.Spec.Ports = append(o.Spec.Ports, corev1.ServicePort{Name: fmt.Sprintf("http-%d", p), Port: p, TargetPort: intstr.FromInt32(8000 + p), Protocol: corev1.ProtocolTCP})
@@ -211,10 +215,14 @@ func (k *kCluster) step() {
 		}
 		if !s.exists {
 			s.exists, s.headless, s.ports = true, tp.Bool(1, 4, "headless"), [][]int32{{80}, {80, 81}}[tp.Choose(2, "ports")]
-			k.emit("svc", "create", k.svcObj(s), fmt.Sprintf("create service %s headless=%v ports=%v", name, s.headless, s.ports))
+			s.hidden = tp.Bool(1, 6, "svchidden")
+			k.emit("svc", "create", k.svcObj(s), fmt.Sprintf("create service %s headless=%v ports=%v exported to nobody=%v", name, s.headless, s.ports, s.hidden))
 		} else if tp.Bool(1, 2, "svcdel") {
 			s.exists = false
 			k.emit("svc", "delete", k.svcObj(s), "delete service "+name)
+		} else if tp.Bool(1, 3, "svchide") {
+			s.hidden = !s.hidden
+			k.emit("svc", "update", k.svcObj(s), fmt.Sprintf("update service %s exported to nobody=%v", name, s.hidden))
 		} else {
 			s.ports = [][]int32{{80}, {80, 81}}[tp.Choose(2, "ports")]
 			k.emit("svc", "update", k.svcObj(s), fmt.Sprintf("update service %s ports=%v", name, s.ports))
@@ -320,11 +328,13 @@ func applyK8s(inst *wisInstance, ns string, ev kEvent) error {
 }
 
 // shardDump is a canonical rendering of the endpoint index restricted to the cluster's services.
-func shardDump(inst *wisInstance) string {
+// shardDump renders the endpoint index. Services that end exported to nobody are left out: no proxy can observe
+// their endpoints (whether the index holds any depends on whether a slice was seen before the Service).
+func shardDump(inst *wisInstance, hidden map[string]bool) string {
 	z := inst.fds.Discovery.Env.EndpointIndex.Shardz()
 	var lines []string
 	for svc, byNs := range z {
-		if !strings.Contains(svc, ".svc.cluster.local") {
+		if !strings.Contains(svc, ".svc.cluster.local") || hidden[svc] {
 			continue
 		}
 		for ns, sh := range byNs {
@@ -508,7 +518,13 @@ func runC15(t *testing.T, r *engine.Run) {
 		cw.advance(2 * time.Second)
 		ok = cw.quiesce(cold, cw.clients)
 	}
-	coldShards, coldSvcs, coldView := shardDump(cold), serviceDump(cold), cc.heldView()
+	hiddenAtEnd := map[string]bool{}
+	for _, sv := range k.svcs {
+		if sv.exists && sv.hidden {
+			hiddenAtEnd[sv.name+"."+k.ns+".svc.cluster.local"] = true
+		}
+	}
+	coldShards, coldSvcs, coldView := shardDump(cold, hiddenAtEnd), serviceDump(cold), cc.heldView()
 	cw.cut(cc)
 	cw.cancel()
 	cold.Close()
@@ -522,7 +538,7 @@ func runC15(t *testing.T, r *engine.Run) {
 		r.Fail("c15.services_differ", "", "services derived from the event history differ from a cold start on the final objects:\n-- history --\n%s\n-- cold --\n%s", got, coldSvcs)
 		return
 	}
-	if got := shardDump(inst); got != coldShards {
+	if got := shardDump(inst, hiddenAtEnd); got != coldShards {
 		r.Fail("c15.endpoints_differ", classifyShardDiff(got, coldShards), "endpoint index after the event history differs from a cold start on the final objects:\n-- history --\n%s\n-- cold --\n%s", got, coldShards)
 		return
 	}
